@@ -74,12 +74,13 @@ class Ext:
         Construct a new Ext object.
 
         Args:
-            type: application-defined type integer from 0 to 127
+            type: application-defined type integer from 0 to 127, or a
+                  predefined type of the specification from -128 to -1
             data: application-defined data byte array
 
         Raises:
             TypeError:
-                Specified ext type is outside of 0 to 127 range.
+                Specified ext type is outside of -128 to 127 range.
 
         Example:
         >>> foo = umsgpack.Ext(0x05, b"\x01\x02\x03")
@@ -90,8 +91,8 @@ class Ext:
         Ext Object (Type: 0x05, Data: 01 02 03)
         >>>
         """
-        # Application ext type should be 0 <= type <= 127
-        if not isinstance(type, int) or not (type >= 0 and type <= 127):
+        # Ext type is a signed byte: 0..127 application-defined, -128..-1 predefined
+        if not isinstance(type, int) or not (type >= -128 and type <= 127):
             raise TypeError("ext type out of range")
         # Check data is type bytes
         elif sys.version_info[0] == 3 and not isinstance(data, bytes):
@@ -591,7 +592,7 @@ def _unpack_ext(code, fp):
     else:
         raise Exception("logic error, not ext: 0x%02x" % ord(code))
 
-    return Ext(ord(_read_except(fp, 1)), _read_except(fp, length))
+    return Ext(struct.unpack("b", _read_except(fp, 1))[0], _read_except(fp, length))
 
 def _unpack_array(code, fp):
     if (ord(code) & 0xf0) == 0x90:
